@@ -20,6 +20,7 @@ func init() {
 		ruleA1(c, "C19.M4")
 		ruleW2(c, "C19.M5")
 		ruleM6(c, "C19.M6")
+		ruleM7(c, "C19.M7")
 	}
 }
 
@@ -269,6 +270,15 @@ func ruleM2(c *Ctx, id string) {
 	}
 	if !found {
 		R.Fail(id, "NFSPROC3_WRITE|count test", P.Pos(w.Pos()), "WRITE bounds its count", "no comparison of args.Count with a constant")
+	}
+	// a write of wtmax bytes must fit in the log together with what it dirties besides its data: one more data block
+	// when the range is not block-aligned, the inode's block, up to three index blocks (the indirect block, or the
+	// doubly indirect root with two second-level blocks when the range crosses from one into the next), and two blocks
+	// of the block bitmap (the allocations may straddle a bitmap-block boundary): 7 blocks
+	if lb := constOfPkg(P, jrnlPath+"/jrnl", "LogBlocks"); lb > 0 {
+		const overhead = 7
+		blocks := (adv + 4095) / 4096
+		R.Check(blocks+overhead <= lb, id, "FSINFO|a write of wtmax fits in the log", P.Pos(pos), fmt.Sprintf("wtmax is %d blocks; with the %d blocks of meta-data one WRITE can dirty that is at most the %d blocks of the log", blocks, overhead, lb), "wtmax/4096 + 7 <= LogBlocks", fmt.Sprintf("wtmax = %d blocks leaves only %d of the %d log blocks for the inode, index and bitmap blocks and the unaligned extra block (7 in the worst case): an unaligned write of the announced size that crosses an index block and a bitmap-block boundary is refused by the journal (SERVERFAULT), and the refused commit makes the next COMMIT unsound", blocks, lb-blocks, lb))
 	}
 	// the quantity that was bounded is the quantity written
 	if c.V.InodeWrite != nil {
@@ -603,4 +613,34 @@ func ruleM6(c *Ctx, id string) {
 	if n == 0 {
 		R.Fail(id, "handlers|request-sized writes", "", "WRITE and SYMLINK write a client-chosen number of bytes", "no Inode.Write with a request-derived count found in the handlers")
 	}
+}
+
+// ruleM7: the maximum file size the server announces (and enforces) must not
+// exceed what the block map can address: NDIRECT direct blocks, NBLKBLK through
+// the indirect block, NBLKBLK^2 through the doubly indirect one.  A larger
+// limit lets SETATTR/WRITE reach a logical block for which indbmap indexes past
+// the end of an index block (panic).  MaxFileSize() is a constant of the
+// program: it is folded by evalClosed, whatever way it is written.
+func ruleM7(c *Ctx, id string) {
+	P, R := c.P, c.R
+	R.Rule(id, "the announced maximum file size is addressable: MaxFileSize() (folded as a constant) <= (NDIRECT + NBLKBLK + NBLKBLK^2) * BlockSize, the range bmap can map", 1)
+	mf := c.fn(id, "inode.MaxFileSize")
+	if mf == nil {
+		return
+	}
+	nd := constOfPkg(P, "inode", "NDIRECT")
+	nb := constOfPkg(P, "inode", "NBLKBLK")
+	bs := constOfPkg(P, "github.com/goose-lang/primitive/disk", "BlockSize")
+	if nd <= 0 || nb <= 0 || bs <= 0 {
+		R.Undecided(id, "inode.MaxFileSize|addressable", P.Pos(mf.Pos()), "the constants NDIRECT, NBLKBLK and BlockSize are known", "a constant is missing")
+		return
+	}
+	budget := 100000
+	v, ok := evalClosed(mf, nil, &budget, 0)
+	if !ok {
+		R.Undecided(id, "inode.MaxFileSize|addressable", P.Pos(mf.Pos()), "MaxFileSize() can be folded to a constant", "the function is not a closed integer computation (or the folding budget ran out)")
+		return
+	}
+	limit := uint64(nd+nb+nb*nb) * uint64(bs)
+	R.Check(v <= limit && v > 0, id, "inode.MaxFileSize|addressable", P.Pos(mf.Pos()), fmt.Sprintf("MaxFileSize() = %d bytes <= %d bytes = (NDIRECT + NBLKBLK + NBLKBLK^2) * BlockSize", v, limit), "folded constant within the block map's range", fmt.Sprintf("MaxFileSize() = %d exceeds the %d bytes the block map can address: a request in the last announced block makes indbmap index past the end of an index block - the server panics", v, limit))
 }
